@@ -47,3 +47,43 @@ Theorem C16_rule_alone : forall d rs h, wf_rules rs -> Forall wf_op h ->
     r_done r' = true /\ s' = fst (add_rule p k true s) /\ Report (r_n r') (r_c r') = snd (add_rule p k true s).
 Proof. exact RuleRunFacts.rule_run_alone. Qed.
 Print Assumptions C16_rule_alone.
+
+(* ---- the three QUERY generators run alone.  Sched.v's coroutines for get_webentity_pages_iter, get_webentities_links_iter and
+   get_webentity_pagelinks_iter read the tree lazily, by block address, through explicit stacks (so that others may write between
+   two turns); the sequential model (webentity_pages, webentities_links, webentity_pagelinks: the functions the property theorems
+   C05 / C07 / C08 and the translated source speak about) walks it structurally.  For EVERY history and every argument, advancing
+   the coroutine alone until it is done yields EXACTLY the sequential answer - same list, same order, same refusal - wherever the
+   turns cut the run (QueryAlone1-3.v).  With C16_batch_alone and C16_rule_alone, every one of the five coroutines of the schedule
+   theorems is now tied, by a theorem, to the sequential request it interleaves. *)
+From Traph Require QueryAlone1 QueryAlone2 QueryAlone3.
+Theorem C16_pages_query_alone : forall d rs h, wf_rules rs -> Forall wf_op h ->
+  let s := run d rs h in
+  forall ps, Forall wf_lru ps ->
+  exists fuel q, run_alone fuel (CPages (pagesq_start ps)) s = (CPages q, s) /\ q_done q = true /\
+    match webentity_pages ps s with
+    | ROk l => q_refused q = false /\ q_acc q = l
+    | RRefused => q_refused q = true
+    | RCrash => False
+    end.
+Proof. exact QueryAlone1.pages_query_alone. Qed.
+
+Theorem C16_network_query_alone : forall d rs h, wf_rules rs -> Forall wf_op h ->
+  let s := run d rs h in
+  forall out auto,
+  exists fuel q, run_alone fuel (CNet (netq_start out auto)) s = (CNet q, s) /\ n_done q = true /\
+    n_graph q = webentities_links out auto s.
+Proof. exact QueryAlone2.network_query_alone. Qed.
+
+Theorem C16_pagelinks_query_alone : forall d rs h, wf_rules rs -> Forall wf_op h ->
+  let s := run d rs h in
+  forall w ps inb int outb, Forall wf_lru ps ->
+  exists fuel q, run_alone fuel (CLinks (plinksq_start w ps inb int outb)) s = (CLinks q, s) /\ l_done q = true /\
+    match webentity_pagelinks w ps inb int outb s with
+    | ROk l => l_refused q = false /\ l_acc q = l
+    | RRefused => l_refused q = true
+    | RCrash => False
+    end.
+Proof. exact QueryAlone3.pagelinks_query_alone. Qed.
+Print Assumptions C16_pages_query_alone.
+Print Assumptions C16_network_query_alone.
+Print Assumptions C16_pagelinks_query_alone.
